@@ -287,6 +287,9 @@ def representation_lane(ctx, recs):
                 ('fortran', np.asfortranarray(T), None), ('strided', big[::2, :, ::2], None),
                 ('transposed view', np.ascontiguousarray(T.transpose(2, 1, 0)).transpose(2, 1, 0), None),
                 ('indices + float64 preprocessor', idx, pool), ('indices + int16 preprocessor', idx.astype(np.int32), pool.astype(np.int16))]
+    # indicators counted from the end (X[-1] is the last point), alone and mixed with ordinary ones
+    variants.append(('negative indices + float64 preprocessor', idx - len(pool), pool))
+    variants.append(('mixed-sign indices + float64 preprocessor', np.where(idx % 2 == 0, idx, idx - len(pool)), pool))
     shifted = pool - pool.min()            # the same points after a common translation (decisions depend on differences only)
     if shifted.max() <= 255:
       # unsigned / narrow stores: every negative coordinate difference would wrap if it were taken in the store's own type
